@@ -10,7 +10,7 @@
    over the definitions of Model/Discrete.v that are extracted and run against /repo
    (Model/DiscreteO.v is a proof device: C12_otree_is_model ties it to Model/Discrete.v).
    law / prob: the finite-distribution semantics of Base/Samp.v. *)
-From EoNV Require Import Prelude Samp Graph Discrete DiscreteP DiscreteO DiscreteOP DeferredP DeferredKP DiscreteLawP DiscreteLawUP FinalSizeP PercLawP.
+From EoNV Require Import Prelude Samp Graph Discrete DiscreteP DiscreteO DiscreteOP DiscreteSISO DeferredP DeferredKP DiscreteLawP DiscreteLawUP FinalSizeP PercLawP SISLawP.
 From Coq Require Import Permutation.
 
 (* ---- the law of the whole run, return_full_data = False ----
@@ -206,6 +206,43 @@ Theorem C12_perc_basic_rows_law : forall g p ord1 ord2 i0 r0o tmin tmax fuel1 fu
 Proof. exact perc_basic_rows_law. Qed.
 Print Assumptions C12_perc_basic_rows_law.
 
+(* ---- basic_discrete_SIS: one coin per (step, arc) ----
+   In the SIS simulator a contact can be tested again at a later step: the coins are indexed by
+   (step k, u, v).  The run of the model makes at most `fuel` steps (beyond, both sides fail with
+   OutOfFuel), so the coins of the steps 0 .. fuel-1 are flipped first: keys_from g enc 0 fuel lists
+   the key (enc k u, v) of every (k < fuel, arc (u, v)); enc is ANY encoding of (step, node) as a
+   number that is injective on the nodes of the graph (enc_lin M k u = k * M + u is one when M is
+   above every node: C12_enc_lin).  The right-hand program flips a coin for every key (perc_loop)
+   and then runs basic_discrete_SIS with the rule "the coin of (k, u, v) came up" -- the rule of
+   the SIS model receives the step index k.  Every event f on the whole output. *)
+Theorem C12_sis_law_deferred : forall g enc ord tmin tmax,
+  NoDup (gnodes g) -> (forall u, In u (gnodes g) -> NoDup (gadj g u)) -> (forall k l, Permutation (ord k l) l) ->
+  (forall k k' u u', In u (gnodes g) -> In u' (gnodes g) -> enc k u = enc k' u' -> k = k' /\ u = u') ->
+  forall p pick i0 fuel (f : dout -> bool),
+  prob f (law (basic_discrete_SIS g p ord (Some i0) None tmin tmax false fuel)) ==
+  prob f (law (bind (perc_loop (simple_rules p) (keys_from g enc O fuel) [] [])
+                    (fun kq => basic_discrete_SIS_R g (det_rules (fun u v k => meme (enc k u, v) (fst kq)) pick) ord
+                                 (Some i0) None tmin tmax false fuel))).
+Proof. exact sis_law_deferred. Qed.
+Print Assumptions C12_sis_law_deferred.
+
+(* any return mode (random.choice stays random on both sides) *)
+Theorem C12_sis_law_deferred_full : forall g enc ord tmin tmax full,
+  NoDup (gnodes g) -> (forall u, In u (gnodes g) -> NoDup (gadj g u)) -> (forall k l, Permutation (ord k l) l) ->
+  (forall k k' u u', In u (gnodes g) -> In u' (gnodes g) -> enc k u = enc k' u' -> k = k' /\ u = u') ->
+  forall p i0 fuel (f : dout -> bool),
+  prob f (law (basic_discrete_SIS g p ord (Some i0) None tmin tmax full fuel)) ==
+  prob f (law (bind (perc_loop (simple_rules p) (keys_from g enc O fuel) [] [])
+                    (fun kq => basic_discrete_SIS_R g (sis_table_rules enc (tbl (fst kq))) ord
+                                 (Some i0) None tmin tmax full fuel))).
+Proof. exact sis_law_deferred_full. Qed.
+Print Assumptions C12_sis_law_deferred_full.
+
+Theorem C12_enc_lin : forall g M, forallb (fun u => N.ltb u M) (gnodes g) = true ->
+  forall k k' u u', In u (gnodes g) -> In u' (gnodes g) -> enc_lin M k u = enc_lin M k' u' -> k = k' /\ u = u'.
+Proof. exact enc_lin_inj. Qed.
+Print Assumptions C12_enc_lin.
+
 (* ---- non-vacuity ---- *)
 (* a digraph 0 -> 1, 0 -> 2, 1 -> 2, 2 -> 0 and the undirected triangle *)
 Definition dg_adj (u : node) : list node :=
@@ -286,3 +323,19 @@ Example C12law_ex_perc :
   prob (evr 2%Z) B == 1 # 4 /\ prob (evr 2%Z) P == 1 # 4 /\ prob (evr 3%Z) B == 1 # 2 /\ prob (evr 3%Z) P == 1 # 2.
 Proof. split; [vm_compute; reflexivity|]. cbv zeta. repeat split; vm_compute; reflexivity. Qed.
 Print Assumptions C12law_ex_perc.
+
+(* SIS on the path 0 - 1 - 2 from node 1, p = 1/2, two steps (tmax = 2, fuel 2): 8 coins.
+   Event "exactly one infectious node at the end": both sides of C12_sis_law_deferred *)
+Definition pth_adj (u : node) : list node :=
+  match u with 0%N => [1]%N | 1%N => [0; 2]%N | 2%N => [1]%N | _ => [] end.
+Definition pth : graph := mkGraph [0; 1; 2]%N pth_adj pth_adj false (fun _ _ => 1) (fun _ => 1) false false.
+Example C12law_ex_sis :
+  forallb (fun u => N.ltb u 3) (gnodes pth) = true /\ length (keys_from pth (enc_lin 3) O 2) = 8%nat /\
+  let ev (o : dout) := match rev (so_rows (o_sim o)) with (_, [_; i]) :: _ => Z.eqb i 1 | _ => false end in
+  let L := prob ev (law (basic_discrete_SIS pth (1 # 2) lx_ord (Some [1%N]) None 0 (Some 2) false 2)) in
+  let Rr := prob ev (law (bind (perc_loop (simple_rules (1 # 2)) (keys_from pth (enc_lin 3) O 2) [] [])
+                    (fun kq => basic_discrete_SIS_R pth (det_rules (fun u v k => meme (enc_lin 3 k u, v) (fst kq)) (fun _ _ => O)) lx_ord
+                                 (Some [1%N]) None 0 (Some 2) false 2))) in
+  L == Rr /\ 0 < L /\ L < 1.
+Proof. split; [vm_compute; reflexivity|]. split; [vm_compute; reflexivity|]. cbv zeta. repeat split; vm_compute; reflexivity. Qed.
+Print Assumptions C12law_ex_sis.
